@@ -330,6 +330,18 @@ func resolveUpstreamConfig(service *ServiceConfig, override string) (*UpstreamCo
 		src = &UpstreamConfig{}
 	}
 
+	// options are merged field by field: a cluster block only changes the settings it states,
+	// everything else stated in the default block stays in force
+	if dst.RouteConfig.Options != nil && src.RouteConfig.Options != nil {
+		merged := *dst.RouteConfig.Options
+		if err := mergo.Merge(&merged, *src.RouteConfig.Options, mergo.WithOverride); err != nil {
+			return nil, err
+		}
+		clusterCopy := *src
+		clusterCopy.RouteConfig.Options = &merged
+		src = &clusterCopy
+	}
+
 	err := mergo.Merge(dst, *src, mergo.WithOverride)
 	if err != nil {
 		return nil, err
